@@ -29,16 +29,17 @@ import (
 func init() { commands["clean"] = cleanCmd }
 
 type cleanStats struct {
-	Cases      int            `json:"cases"`
-	Nontrivial int            `json:"distinct_nontrivial"`
-	OutKinds   map[string]int `json:"output_kinds"`
-	Dangerous  int            `json:"cases_with_an_output_evaluating_to_project_dir_or_above"`
-	RelSpokfile int           `json:"cases_run_with_relative_spokfile_flag"`
-	WithClean  int            `json:"cases_with_a_task_named_clean"`
-	Nested     int            `json:"cases_run_from_a_nested_directory"`
-	Removed    int            `json:"paths_removed_in_total"`
-	Samples    []string       `json:"samples"`
-	OracleFail map[string]int `json:"oracle_failures"`
+	Cases        int            `json:"cases"`
+	Nontrivial   int            `json:"distinct_nontrivial"`
+	OutKinds     map[string]int `json:"output_kinds"`
+	Dangerous    int            `json:"cases_with_an_output_evaluating_to_project_dir_or_above"`
+	RelSpokfile  int            `json:"cases_run_with_relative_spokfile_flag"`
+	WithClean    int            `json:"cases_with_a_task_named_clean"`
+	Nested       int            `json:"cases_run_from_a_nested_directory"`
+	SymlinkCases int            `json:"cases_with_symbolic_links_implementation_only"`
+	Removed      int            `json:"paths_removed_in_total"`
+	Samples      []string       `json:"samples"`
+	OracleFail   map[string]int `json:"oracle_failures"`
 }
 
 func snapshot(home string) []string {
@@ -338,6 +339,11 @@ func cleanCmd(args []string) error {
 		}
 		os.RemoveAll(home)
 	}
+	nl := 96
+	if *tier == "thorough" {
+		nl = 1600
+	}
+	cleanSymlinkCases(*spok, tmp, r, nl / *nshards, &st, bo)
 	bc.Flush()
 	bi.Flush()
 	bo.Flush()
@@ -346,4 +352,94 @@ func cleanCmd(args []string) error {
 	fo.Close()
 	sj, _ := json.Marshal(st)
 	return os.WriteFile(filepath.Join(*out, fmt.Sprintf("stats.%d.json", *shard)), sj, 0o644)
+}
+
+// cleanSymlinkCases (implementation only; the model has no symbolic links): declared outputs that ARE symbolic links, and a
+// project reached through a symbolic link.  Removing a declared output removes that path - the link - and never what it
+// points to; the spokfile survives whatever route led to it.
+func cleanSymlinkCases(spok, tmp string, r *rand.Rand, n int, st *cleanStats, bo *bufio.Writer) {
+	for k := 0; k < n; k++ {
+		home := filepath.Join(tmp, fmt.Sprintf("l%d", k))
+		proj := filepath.Join(home, "proj")
+		os.MkdirAll(filepath.Join(proj, "gen"), 0o755)
+		os.MkdirAll(filepath.Join(home, "sibling"), 0o755)
+		os.WriteFile(filepath.Join(home, "canary.txt"), []byte("c"), 0o644)
+		os.WriteFile(filepath.Join(home, "sibling", "s.txt"), []byte("s"), 0o644)
+		os.WriteFile(filepath.Join(proj, "keep.txt"), []byte("k"), 0o644)
+		os.WriteFile(filepath.Join(proj, "gen", "a.c"), []byte("a"), 0o644)
+		os.WriteFile(filepath.Join(proj, "notes.md"), []byte("n"), 0o644)
+		// links: relative path in the project -> target
+		links := [][2]string{{"gen/latest.c", "../keep.txt"}, {"gen/ext.c", "../../sibling/s.txt"}, {"out.txt", "keep.txt"}, {"bin", "../sibling"}, {"gen/dangling.c", "nowhere"}}
+		made := map[string]bool{}
+		for _, l := range links {
+			if r.Intn(3) != 0 {
+				if os.Symlink(l[1], filepath.Join(proj, l[0])) == nil {
+					made[l[0]] = true
+				}
+			}
+		}
+		outPool := []string{"gen/*.c", "out.txt", "bin", "*.txt", "gen/*", "*"}
+		var outs []string
+		for _, o := range outPool {
+			if r.Intn(3) == 0 {
+				outs = append(outs, o)
+			}
+		}
+		if len(outs) == 0 {
+			outs = []string{outPool[r.Intn(len(outPool))]}
+		}
+		var qs []string
+		for _, o := range outs {
+			qs = append(qs, `"`+o+`"`)
+		}
+		src := fmt.Sprintf("task ta() -> (%s) {\n    echo hi\n}\n", strings.Join(qs, ", "))
+		if len(qs) == 1 {
+			src = fmt.Sprintf("task ta() -> %s {\n    echo hi\n}\n", qs[0])
+		}
+		os.WriteFile(filepath.Join(proj, "spokfile"), []byte(src), 0o644)
+		cwd := proj
+		via := r.Intn(3) == 0
+		if via { // the project is reached through home/plink -> home/proj
+			os.Symlink("proj", filepath.Join(home, "plink"))
+			cwd = filepath.Join(home, "plink")
+		}
+		before := snapshot(home)
+		// reference: top-level entries of the project matched by an output (lexically), except the spokfile; inside gen: by gen/ patterns
+		var want []string
+		for _, p := range before {
+			rel := strings.TrimPrefix(p, "proj/")
+			gone := false
+			if strings.HasPrefix(p, "proj/") && rel != "spokfile" {
+				for _, o := range outs {
+					for q := rel; q != "." && q != ""; q = filepath.Dir(q) { // an entry goes when it or a directory above it is an output
+						if ok, _ := doublestar.Match(o, q); ok && !strings.HasPrefix(q, ".") {
+							// a directory above it that is a symbolic link is removed as a link: nothing below it is in this snapshot anyway
+							gone = true
+						}
+					}
+				}
+			}
+			if !gone {
+				want = append(want, p)
+			}
+		}
+		cmd := exec.Command(spok, "--clean")
+		cmd.Dir = cwd
+		cmd.Env = []string{"HOME=" + home, "PATH=/usr/bin:/bin", "PWD=" + cwd}
+		var se bytes.Buffer
+		cmd.Stderr = &se
+		exit := 0
+		if err := cmd.Run(); err != nil {
+			exit = 1
+		}
+		after := snapshot(home)
+		st.SymlinkCases++
+		cs := fmt.Sprintf("symlinks:%v;via-link:%v;outs:%s", made, via, strings.Join(outs, ","))
+		cs = strings.ReplaceAll(cs, " ", "_")
+		if got, w := strings.Join(after, ","), strings.Join(want, ","); got != w || exit != 0 {
+			st.OracleFail["C12"]++
+			fmt.Fprintf(bo, "C12 %s with symbolic links: after --clean (exit %d) the tree is [%s], expected [%s] (spokfile %q, stderr %q)\n", cs, exit, got, w, src, strings.TrimSpace(se.String()))
+		}
+		os.RemoveAll(home)
+	}
 }
